@@ -127,13 +127,14 @@ def _ray_quad(a: float, b: float, c: float) -> Tuple[float, wp.vec2]:
 
 @wp.func
 def _orthogonal_basis(vec: wp.vec3) -> Tuple[wp.vec3, wp.vec3]:
-  """Computes two orthonormal basis vectors b0, b1 perpendicular to unit vector vec.
+  """Computes two orthonormal basis vectors b0, b1 perpendicular to vector vec.
 
   Reference:
     Duff et al. (2017), "Building an Orthonormal Basis, Revisited", JCGT 6(1).
     Refines Frisvad (2012), "Building an Orthonormal Basis from a 3D Unit Vector
     Without Normalization", JCGT 1(1), to remove the singularity without branching.
   """
+  vec = wp.normalize(vec)  # ray directions need not have unit length
   sign = wp.where(vec[2] >= 0.0, 1.0, -1.0)
   a = -1.0 / (sign + vec[2])
   b = vec[0] * vec[1] * a
